@@ -9,17 +9,35 @@ EXPLANATION = ('Static rules on GroupByObserver: G1 in next() the group of a new
                'or_insert_with closure) before the item is forwarded; on every path the item is forwarded exactly once, to the map entry looked '
                'up under the key computed from this very item, and the announced group wraps a clone of the subject that is inserted; G2 '
                'error()/complete() deliver the terminal to every drained group and then, once, to the outer observer; G5 the key map is indexed by the key value itself (key type parameter, entry(key)); G4 next() never removes a group from the key map (one group per key for the life of the source); G3 GroupByOp is '
-               'instantiated for Subject and SubjectThreads only (handle types). G8 the subject helper that admits waiting subscribers removes no live subscriber (a group_by whose stream of groups ended early reports finished but its groups are still fed); G7 the group subjects deliver every item and the terminal to every live subscriber of the group exactly once: the live list is walked inside one critical section and not edited during the walk, terminals take() it and skip only closed entries (same rules as C06.J1/J6/J3/J4); G6 every source delivers its terminal on every path, also when the observer reports finished early, so that it reaches the groups through G2 (same rule as C03.S1). Does not decide first-appearance order, hash routing or '
+               'instantiated for Subject and SubjectThreads only (handle types). G9 is_finished answers true only when the outer observer does (path rule of C16.E1, over-reporting verdicts only: a cold source that polls it stops and later keys are never announced); G8 the subject helper that admits waiting subscribers removes no live subscriber (a group_by whose stream of groups ended early reports finished but its groups are still fed); G7 the group subjects deliver every item and the terminal to every live subscriber of the group exactly once: the live list is walked inside one critical section and not edited during the walk, terminals take() it and skip only closed entries (same rules as C06.J1/J6/J3/J4); G6 every source delivers its terminal on every path, also when the observer reports finished early, so that it reaches the groups through G2 (same rule as C03.S1). Does not decide first-appearance order, hash routing or '
                'round-trip equality.')
 ASSUMPTIONS = ['HashMap::entry/or_insert_with behave as documented']
 TAG = 'ops::group_by::GroupByObserver'
-CONTROLS = ['G1|<verif_controls::BadGroupBy<O, D, K, S> as Observer>::next', 'G2|<verif_controls::BadGroupBy<O, D, K, S> as Observer>::complete']
+CONTROLS = ['G1|<verif_controls::BadGroupBy<O, D, K, S> as Observer>::next', 'G2|<verif_controls::BadGroupBy<O, D, K, S> as Observer>::complete',
+            'G9|<verif_controls::OrFinishedObserver<O> as Observer>::is_finished']
 
 
 def check(cx):
     _env_wrapped = True
     from . import c03
-    return _check_own(cx) + c03.envelopes(cx, ID)
+    return _check_own(cx) + c03.envelopes(cx, ID) + _g9(cx)
+
+
+def _g9(cx):
+    """G9: GroupByObserver::is_finished never answers true while the outer observer is alive (a cold source polls it between items and
+    stops: keys that appear later are never announced and their items reach no group). Same path rule as C16.E1, restricted to the
+    over-reporting verdicts (hiding the end is C16's business and loses no item)."""
+    from . import c16
+    res = []
+    for f in c16.e1(cx):
+        if TAG.rsplit('::', 1)[1] not in f.key and not (cx.control and 'OrFinishedObserver' in f.key):
+            continue
+        st = getattr(f, 'state', None)
+        bad = (not f.ok) and st != 'under' and st != 'const_false'
+        res.append(Finding(ID, 'G9', f.key, not bad, f.msg if bad else 'is_finished is true only when the outer observer says so', f.loc, f.witness if bad else None))
+    if not cx.control and not res:
+        res.append(Finding(ID, 'G9', 'GroupByObserver::is_finished', False, 'anchor not found: no is_finished obligation for the group_by observer'))
+    return res
 
 
 def _check_own(cx):
